@@ -1,22 +1,113 @@
 #!/usr/bin/env python3
-"""Run checks against a seeded change: apply <dir>/patch.diff to /repo, run ./check <PROP> <tier> for each
-given property, restore /repo, print a summary line per check. Usage: tools/seeded.py <seeded-dir> <tier> <PROP> [<PROP>...]
-Never leaves /repo modified (restores even on error)."""
-import subprocess, sys, os, json, time
-d, tier, props = sys.argv[1], sys.argv[2], sys.argv[3:]
+"""Run checks against a seeded change.
+
+  tools/seeded.py <seeded-dir> <tier> <PROP> [<PROP>...] [--in-repo] [--confirm]
+
+Default (isolated) mode: a scratch git worktree of /repo gets <seeded-dir>/patch.diff applied, a shadow
+copy of /verif (sources only) is pointed at that worktree and `./check <PROP> <tier>` runs there, so /repo is
+never touched and several seeded changes can be evaluated in parallel.
+--in-repo: the prescribed way — `git -C /repo apply`, run the checks in /verif, `git -C /repo checkout -- .`.
+--confirm: additionally confirm the seeded change itself in the scratch worktree: the 477-test baseline
+passes with it, and the demonstration (meta.json demo_cmd, demo.rs) fails with it and passes without.
+Writes <seeded-dir>/result-<tier>.json (and confirm.json)."""
+import json, os, re, shutil, subprocess, sys, time, hashlib
+
+args = [a for a in sys.argv[1:] if not a.startswith("--")]
+flags = [a for a in sys.argv[1:] if a.startswith("--")]
+d, tier, props = os.path.abspath(args[0]), args[1], args[2:]
+name = hashlib.sha1(d.encode()).hexdigest()[:10]
 patch = os.path.join(d, "patch.diff")
-assert subprocess.run(["git", "-C", "/repo", "status", "--porcelain", "--untracked-files=no"], capture_output=True, text=True).stdout.strip() == "", "/repo not clean"
-r = subprocess.run(["git", "-C", "/repo", "apply", patch], capture_output=True, text=True)
-if r.returncode != 0:
-    print("APPLY FAILED", r.stderr[:500]); sys.exit(3)
-res = {}
-try:
+ENV = dict(os.environ, CARGO_NET_OFFLINE="true", RUST_BACKTRACE="0")
+BASELINE = ["cargo", "nextest", "run", "--workspace", "--no-fail-fast", "--tool-config-file", "pb:/w/lib/nextest.toml", "--profile", "pb", "--test-threads", "8", "--offline"]
+
+
+def sh(cmd, cwd=None, timeout=None, env=None):
+    return subprocess.run(cmd, cwd=cwd, capture_output=True, text=True, timeout=timeout, env=env or ENV)
+
+
+def summarize(q):
+    return [l for l in q.stdout.splitlines() if l.startswith("VIOLATION") or l.startswith("  rule=") or l.startswith("INCONCLUSIVE")][:8]
+
+
+def run_checks(root, extra_env):
+    res = {}
     for p in props:
         t0 = time.time()
-        q = subprocess.run(["./check", p, tier], cwd="/verif", capture_output=True, text=True)
-        lines = [l for l in q.stdout.splitlines() if l.startswith("VIOLATION") or l.startswith("  rule=") or l.startswith("INCONCLUSIVE")]
-        res[p] = {"exit": q.returncode, "wall_s": round(time.time() - t0, 1), "lines": lines[:8]}
-        print(p, tier, "exit", q.returncode, f"{time.time()-t0:.0f}s", "|", " ; ".join(lines[:4])[:400], flush=True)
+        q = sh(["./check", p, tier], cwd=root, env=dict(ENV, **extra_env))
+        lines = summarize(q)
+        res[p] = {"exit": q.returncode, "wall_s": round(time.time() - t0, 1), "lines": lines}
+        print(os.path.basename(os.path.dirname(d)) + "/" + os.path.basename(d), p, tier, "exit", q.returncode, f"{time.time()-t0:.0f}s", "|", " ; ".join(lines[:4])[:300], flush=True)
+    return res
+
+
+if "--in-repo" in flags:
+    assert sh(["git", "-C", "/repo", "status", "--porcelain", "--untracked-files=no"]).stdout.strip() == "", "/repo not clean"
+    r = sh(["git", "-C", "/repo", "apply", patch])
+    if r.returncode != 0:
+        print("APPLY FAILED", r.stderr[:500])
+        sys.exit(3)
+    try:
+        res = run_checks("/verif", {})
+    finally:
+        subprocess.run(["git", "-C", "/repo", "checkout", "--", "."], check=True)
+    json.dump(res, open(os.path.join(d, f"result-{tier}-in-repo.json"), "w"), indent=1)
+    sys.exit(0)
+
+wt = f"/tmp/seedwt/{name}"
+shadow = f"/tmp/verif-shadow/{name}"
+os.makedirs("/tmp/seedwt", exist_ok=True)
+os.makedirs("/tmp/verif-shadow", exist_ok=True)
+if os.path.exists(wt):
+    sh(["git", "-C", "/repo", "worktree", "remove", "--force", wt])
+r = sh(["git", "-C", "/repo", "worktree", "add", "--detach", wt, "HEAD"])
+assert r.returncode == 0, r.stderr
+try:
+    r = sh(["git", "-C", wt, "apply", patch])
+    if r.returncode != 0:
+        r = sh(["git", "-C", wt, "apply", "--3way", patch])
+    if r.returncode != 0:
+        print("APPLY FAILED", r.stderr[:500])
+        json.dump({"apply_failed": r.stderr[:2000]}, open(os.path.join(d, f"result-{tier}.json"), "w"))
+        sys.exit(3)
+    if "--confirm" in flags:
+        conf = {}
+        meta = json.load(open(os.path.join(d, "meta.json")))
+        tgt = os.path.join("/tmp/seedwt", "target-confirm")
+        e = dict(ENV, CARGO_TARGET_DIR=tgt)
+        t = sh(BASELINE, cwd=wt, timeout=3000, env=e)
+        m = re.search(r"(\d+) tests run: (\d+) passed", t.stdout + t.stderr)
+        conf["baseline_with_change"] = m.group(0) if m else (t.stdout + t.stderr)[-300:]
+        demo_cmd = meta.get("demo_cmd", "")
+        k = re.search(r"demo_\w+", demo_cmd)
+        demo_name = k.group(0) if k else "demo_1"
+        shutil.copy(os.path.join(d, "demo.rs"), os.path.join(wt, "tests", demo_name + ".rs"))
+        cmd = re.sub(r"^cd \S+ && ", "", demo_cmd.strip())
+        cmd = cmd if cmd.startswith("cargo") else f"cargo test --offline --features tests-cfg --test {demo_name}"
+        a = subprocess.run(cmd, shell=True, cwd=wt, capture_output=True, text=True, env=e, timeout=3000)
+        conf["demo_with_change_exit"] = a.returncode
+        sh(["git", "-C", wt, "apply", "-R", patch])
+        b = subprocess.run(cmd, shell=True, cwd=wt, capture_output=True, text=True, env=e, timeout=3000)
+        conf["demo_without_change_exit"] = b.returncode
+        conf["demo_cmd"] = cmd
+        conf["confirmed"] = bool(m and m.group(1) == m.group(2) == "477" and a.returncode != 0 and b.returncode == 0)
+        os.remove(os.path.join(wt, "tests", demo_name + ".rs"))
+        sh(["git", "-C", wt, "apply", patch])
+        json.dump(conf, open(os.path.join(d, "confirm.json"), "w"), indent=1)
+        print(os.path.basename(os.path.dirname(d)) + "/" + os.path.basename(d), "CONFIRM", conf, flush=True)
+    if props:
+        # shadow copy of /verif pointing at the mutated worktree
+        if os.path.exists(shadow):
+            shutil.rmtree(shadow)
+        subprocess.run(["rsync", "-a", "--exclude", ".git", "--exclude", "target", "--exclude", "evidence", "--exclude", "replays", "--exclude", "seeded", "/verif/", shadow + "/"], check=True)
+        for f in ["harness/vglue/Cargo.toml"]:
+            p = os.path.join(shadow, f)
+            s = open(p).read().replace('path = "/repo"', f'path = "{wt}"')
+            open(p, "w").write(s)
+        # share compiled third-party dependencies between shadows
+        os.makedirs("/tmp/verif-shadow/target", exist_ok=True)
+        os.symlink("/tmp/verif-shadow/target", os.path.join(shadow, "harness", "target"))
+        res = run_checks(shadow, {"C19_REPO": wt, "C20_REPO": wt})
+        json.dump(res, open(os.path.join(d, f"result-{tier}.json"), "w"), indent=1)
 finally:
-    subprocess.run(["git", "-C", "/repo", "checkout", "--", "."], check=True)
-json.dump(res, open(os.path.join(d, f"result-{tier}.json"), "w"), indent=1)
+    sh(["git", "-C", "/repo", "worktree", "remove", "--force", wt])
+    shutil.rmtree(shadow, ignore_errors=True)
